@@ -1,6 +1,7 @@
 package main
 
 import (
+	"sort"
 	"strconv"
 	"os"
 	"bufio"
@@ -87,6 +88,22 @@ func genC05(g *Gen, tier string, w *bufio.Writer) {
 			}
 		}
 	}
+	// LIMIT over a plan in which ANOTHER Limit node is run again and again (the joined side of a LOOKUP JOIN, a subquery
+	// expression): every Limit stops its own source only, and counts from zero on every run
+	for _, mode := range []string{"csv", "json", "batch_table", "stream_native"} {
+		for variant := 0; variant <= 3; variant++ {
+			ns := []int{0, 1, 3, 5, 100}
+			if tier != "thorough" {
+				ns = []int{0, 3, 100, 1 + g.Intn(12)}
+			}
+			for _, n := range ns {
+				m := 1 + g.Intn(3)
+				na := 2 + g.Intn(6)
+				nb := 1 + g.Intn(8)
+				fmt.Fprintf(w, "lim3 %s %d %d %d %d %d\n", mode, variant, n, m, na, nb)
+			}
+		}
+	}
 	// plus random nested shapes where every block has a LIMIT
 	n := 300
 	if tier == "thorough" {
@@ -103,7 +120,37 @@ func genC05(g *Gen, tier string, w *bufio.Writer) {
 }
 
 
+// lim3 <mode> <variant> <n> <m> <na> <nb>: rows sorted as strings (which rows a LIMIT without ORDER BY keeps is free)
+func driveLim3(toks []string) string {
+	mode, variant, n, m, na, nb := toks[1], toks[2], toks[3], toks[4], toks[5], toks[6]
+	a := "range(start=>0, end=>" + na + ") a"
+	sub := "(SELECT * FROM range(start=>0, end=>" + nb + ") r LIMIT " + m + ") b"
+	var sql string
+	switch variant {
+	case "0":
+		sql = "SELECT a.i AS x, b.i AS y FROM " + a + " LOOKUP JOIN " + sub + " LIMIT " + n
+	case "1":
+		sql = "SELECT * FROM (SELECT a.i AS x, b.i AS y FROM " + a + " LOOKUP JOIN " + sub + " LIMIT " + n + ") q"
+	case "2":
+		sql = "SELECT a.i AS x, (SELECT r.i FROM range(start=>0, end=>" + nb + ") r LIMIT 1)[0] AS y FROM " + a + " LIMIT " + n
+	default:
+		sql = "SELECT a.i AS x, b.i AS y FROM " + a + " LOOKUP JOIN " + sub + " ORDER BY x DESC, y ASC LIMIT " + n
+	}
+	dir := scratchDir("lim3")
+	defer os.RemoveAll(dir)
+	out := canonOutput(runOctosql(dir, nil, sql, "-o", mode), mode, "ii")
+	parts := strings.Split(out, " | ")
+	if len(parts) > 1 && strings.HasPrefix(parts[0], "rows ") {
+		sort.Strings(parts[1:])
+		out = strings.Join(parts, " | ")
+	}
+	return out
+}
+
 func driveC05(toks []string) string {
+	if toks[0] == "lim3" {
+		return driveLim3(toks)
+	}
 	if toks[0] != "lim2" {
 		return driveSel(toks)
 	}
